@@ -248,11 +248,10 @@ theorem checkTimeouts_noRef (cfg : Cfg) (n : Node) (sid : Option Nat) (h : NoRef
     by_cases ht : n.now ≥ a.armedAt + a.timeout
     · simp only [ht, if_true]
       have h1 := expireAndPurge_noRef cfg n a (expSid n sid) h
-      rcases hres : expireAndPurge cfg n a (expSid n sid) with ⟨n1, e⟩
-      rw [hres] at h1
-      cases e with
-      | some e => exact h1
-      | none => exact windowTimeout_noRef n1 h1
+      have heq : (expireAndPurgeLenient cfg n a (expSid n sid)).1 = (expireAndPurge cfg n a (expSid n sid)).1 := rfl
+      cases he : (expireAndPurgeLenient cfg n a (expSid n sid)).2 with
+      | some e => simp only []; rw [heq]; exact h1
+      | none => simp only []; rw [heq]; exact windowTimeout_noRef _ h1
     · simp only [ht, if_false]; exact windowTimeout_noRef n h
 
 /-- **RemoveFabric leaves nothing behind** (whatever the store answers) -/
@@ -419,8 +418,8 @@ theorem sessOp_arm_noRef (cfg : Cfg) (n : Node) (sid s secs : Nat) (mode : Mode)
   simp only [sessOp]
   by_cases h0 : secs = 0
   · simp only [h0, if_true]
-    have := expire_noRef cfg n (if mode.isPase = true then some sid else none) h
-    rcases hr : expire cfg n (if mode.isPase = true then some sid else none) with ⟨n1, e⟩
+    have := expire_noRef cfg n (some sid) h
+    rcases hr : expire cfg n (some sid) with ⟨n1, e⟩
     rw [hr] at this
     cases e <;> exact this
   · simp only [h0, if_false]
@@ -430,8 +429,8 @@ theorem sessOp_arm_noRef (cfg : Cfg) (n : Node) (sid s secs : Nat) (mode : Mode)
 theorem sessOp_revoke_noRef (cfg : Cfg) (n : Node) (sid s : Nat) (mode : Mode) (h : NoRef n) :
     NoRef (sessOp cfg n sid mode (.revoke s)).1 := by
   simp only [sessOp]
-  have := expire_noRef cfg n (if mode.isPase = true then some sid else none) h
-  rcases hr : expire cfg n (if mode.isPase = true then some sid else none) with ⟨n1, e⟩
+  have := expire_noRef cfg n (some sid) h
+  rcases hr : expire cfg n (some sid) with ⟨n1, e⟩
   rw [hr] at this
   cases e with
   | some e => exact this
